@@ -62,6 +62,16 @@ CHECKS = {
         "note": "Trusted: TLC, Gaussian-prime diagonal operators (the check verifies that values identify the time tuple), monomial ancilla process tensors with memory. Empty selections are out of scope. Bath-occupation closed forms (bath_dynamics.py) are numerical and not covered.",
         "technique": "two TLA+ specs (time-spec algebra, exact correlation semantics) + TLC enumeration; spec->code replay entry by entry",
     },
+    "C16": {
+        "text": "PTRoundTrip.tla: abstract process tensor, the exact file-operation sequence export() must perform for it, the reader's reconstruction and RoundTrip == Read(Export(pt)) = pt, checked by TLC over every shape (length, rank-3/4 pattern, dt or none, transforms none/unitary/non-unitary, caps or none, named or not) x import type. Each case is realised as a real ancilla process tensor; the recorded export trace must equal the spec's, every getter and every consumer (compute_dynamics, compute_correlations, state_gradient, PtTebd) of the imported object must agree with the original; file-backed vs in-memory PT-TEMPO compared gauge-invariantly.",
+        "note": "Trusted: TLC, h5py proxy (records calls after they return), numpy. Rank-3 tensors are compared in delta-expanded form (the two classes differ in what the untransformed getter returns). PT-TEMPO tensors compared through consumers because their SVD gauge is not reproducible.",
+        "technique": "TLA+ spec + TLC enumeration of process-tensor shapes; export-trace comparison; spec->code round-trip replay",
+    },
+    "C17": {
+        "text": "PTFile.tla: abstract HDF5 content updated per file operation, write-back possible at any time, crash after any operation, reader classification error/warn/clean. The spec is driven by the operation trace recorded from the real writer (export(), file-backed PT-TEMPO): TLC validates the trace (every operation legal, flag raised before any data operation, closed file clean and complete, whole trace consumed) and explores every crash x flush point (CrashNeverClean, CleanCloseComplete; the identity-test deviation must violate). The same crash x flush points are realised with child processes that flush and os._exit at the chosen operations; the surviving file is imported with both import types and must be classified within the set the spec allows and never clean (except the unavoidable final window where the content is complete). Mode matrix and remove() from the spec's ModeTable.",
+        "note": "Trusted: TLC, h5py proxy, os._exit as process death, explicit flush as the write-back point (the spec allows every prefix between last flush and crash, and 'error').",
+        "technique": "TLA+ crash/write-back model driven by recorded traces (code->spec trace validation with TLC) + crash-point replay in child processes",
+    },
 }
 for e in ENGINES:
     e["serves_properties"] = sorted(CHECKS)
